@@ -56,7 +56,7 @@ pub fn mime_candidates(name: &str) -> Vec<&'static str> {
 #[derive(Clone, Debug, Serialize, Deserialize, PartialEq, Eq, Hash)]
 pub enum EntrySpec {
     File { name: String, size: u32 },
-    Dir { name: String, index: Option<u32>, entries: Vec<EntrySpec> },
+    Dir { name: String, index: Option<u32>, entries: Vec<EntrySpec>, #[serde(default)] html_twin: Option<u32> },
     /// symlink to a regular file inside the root (target chosen among files created before it); style selects the spelling of the link text
     LinkToFile { name: String, target: u16, style: u8 },
     /// symlink to a designated linked-ok file outside the root (RWSV-LINKED marker)
@@ -133,8 +133,8 @@ fn entry_strategy(depth: u32, thorough: bool) -> BoxedStrategy<EntrySpec> {
     if depth == 0 {
         prop_oneof![8 => file, 2 => links].boxed()
     } else {
-        let dir = (stem_strategy(), proptest::option::weighted(0.6, size_strategy(false)), proptest::collection::vec(entry_strategy(depth - 1, thorough), 0..5))
-            .prop_map(|(name, index, entries)| EntrySpec::Dir { name, index, entries });
+        let dir = (stem_strategy(), proptest::option::weighted(0.6, size_strategy(false)), proptest::collection::vec(entry_strategy(depth - 1, thorough), 0..5), proptest::option::weighted(0.25, 1u32..300))
+            .prop_map(|(name, index, entries, html_twin)| EntrySpec::Dir { name, index, entries, html_twin });
         prop_oneof![6 => file, 3 => dir, 2 => links].boxed()
     }
 }
@@ -301,9 +301,19 @@ impl Tree {
                     self.files.push(TFile { url: eurl.clone(), marker: marker("FILE", salt, &eurl), kind: "file" });
                     files.push(eurl);
                 }
-                EntrySpec::Dir { index, entries, .. } => {
+                EntrySpec::Dir { index, entries, html_twin, .. } => {
                     std::fs::create_dir_all(&path)?;
                     dirs.push(eurl.clone());
+                    if let Some(sz) = html_twin {
+                        // X/ next to X.html: the overlap class of the lookup rule
+                        let tname = format!("{}.html", name);
+                        if uniq(&mut names, &tname, at_root).is_some() {
+                            let turl = format!("{}/{}", url, tname);
+                            std::fs::write(dir.join(&tname), content_sized(salt, &turl, (*sz).max(60) as usize))?;
+                            self.files.push(TFile { url: turl.clone(), marker: marker("FILE", salt, &turl), kind: "html-twin-of-directory" });
+                            files.push(turl);
+                        }
+                    }
                     if let Some(sz) = index {
                         let iurl = format!("{}/index.html", eurl);
                         std::fs::write(path.join("index.html"), content_sized(salt, &iurl, (*sz).max(1) as usize))?;
